@@ -144,6 +144,7 @@ def _last_seg(defname):
 
 
 _SHORT = {}
+_IMPL_FOR = re.compile(r"<impl (.+) for (.+)>::(\w+)$")
 
 
 def _strip_generics(p):
@@ -183,6 +184,10 @@ def short_name(pretty):
     if r is not None:
         return r
     p = pretty
+    m = _IMPL_FOR.search(p)
+    if m:
+        # `std::cmp::impls::<impl std::cmp::Ord for i64>::cmp` -> `<i64 as Ord>::cmp`
+        p = f"<{m.group(2)} as {m.group(1)}>::{m.group(3)}"
     if p.startswith("<"):
         # qualified form: find the matching '>' of the leading '<'
         depth = 0
